@@ -97,7 +97,9 @@ package peer
 //@   fresh ret0
 
 // sign-then-verify: both sides build the signed bytes with the same signBody term.
-//@ lemma sign-verify-roundtrip: forall k bytes, c string, t int, d bytes :: edVerify(pubOf(k), signBody(c, t, d), edSign(k, signBody(c, t, d)))
+// (for a key pair proper: a 64-byte private key whose stored public half is not the one of its seed signs
+// with that half mixed in, and the signature verifies under neither key)
+//@ lemma sign-verify-roundtrip: forall k bytes, c string, t int, d bytes :: edKeyPair(k) ==> edVerify(pubOf(k), signBody(c, t, d), edSign(k, signBody(c, t, d)))
 
 // ---- C13: key derivation is total (no panic for any context/salt/output buffer) ----
 // C13 (determinism): on success every byte of out is output of the BLAKE3 derive-key hasher for this
